@@ -218,6 +218,16 @@ static void apply(const struct op *o, struct mstate *m) {
         case 2: st = polyseed_decode("xxx xxx", 0, &lo, &d); want = ST_NUM_WORDS; break;
         case 3: st = polyseed_decode_explicit("qq qq qq qq qq qq qq qq qq qq qq qq qq qq qq qq", 0, polyseed_get_lang(5), &d); want = ST_LANG; break;
         case 4: st = polyseed_decode(phr, 5, &lo, &d); want = ST_CHECKSUM; break;      /* right phrase, wrong coin */
+        case 7: case 8: {   /* every single space is a boundary: a valid phrase with one space doubled has seventeen words (one of them empty); fifteen words with a
+                             * doubled space are sixteen, one of which no list has */
+            static char dbl[2][2048]; static int have2;
+            if (!have2) { have2 = 1; char *sp = phr; for (int i = 0; i < 5; i++) sp = strchr(sp + 1, ' '); size_t n = (size_t)(sp - phr);
+                memcpy(dbl[0], phr, n); dbl[0][n] = ' '; strcpy(dbl[0] + n + 1, sp);
+                strcpy(dbl[1], dbl[0]); *strrchr(dbl[1], ' ') = 0; }
+            const char *q = dbl[o->a - 7];
+            if (o->a == 7) { st = polyseed_decode(q, 0, &lo, &d); want = ref_decode(q, 0, -1, m->mask, 0, CAP, NULL, NULL); if (want != ST_NUM_WORDS) BADV("c13:model-internal", "doubled-space phrase: model says %d", want); }
+            else { st = polyseed_decode_explicit(q, 0, polyseed_get_lang(4), &d); want = ref_decode(q, 0, 4, m->mask, 0, CAP, NULL, NULL); if (want != ST_LANG) BADV("c13:model-internal", "fifteen words with a doubled space: model says %d", want); }
+        } break;
         case 5: case 6: {   /* a checksum-valid phrase that two lists recognise (English/French words; characters common to both Chinese lists): always "multiple languages" */
             static char amb[2][2048]; static int have[2];
             int w = o->a - 5, la = w ? 8 : 0, lb = w ? 9 : 4;
@@ -434,6 +444,7 @@ static void build_profile(void) {
         add_op(O_BADCALL, 0, 0, 0, "load(bad-checksum)"); add_op(O_BADCALL, 1, 0, 0, "load(bad-header)"); add_op(O_BADCALL, 2, 0, 0, "decode(two-words)");
         add_op(O_BADCALL, 3, 0, 0, "decode_explicit(unknown-words)"); add_op(O_BADCALL, 4, 0, 0, "decode(wrong-coin)");
         add_op(O_BADCALL, 5, 0, 0, "decode(ambiguous en/fr phrase)"); add_op(O_BADCALL, 6, 0, 0, "decode(ambiguous zh_s/zh_t phrase)");
+        add_op(O_BADCALL, 7, 0, 0, "decode(valid phrase, one space doubled)"); add_op(O_BADCALL, 8, 0, 0, "decode_explicit(fifteen words, one space doubled)");
     } else if (P_FEAT) {
         NSLOT = 1; PASSWORDS[0] = "pw"; NPW = 1;
         RECODES[0] = (struct recv){ 0, 5, 0 }; RECODES[1] = (struct recv){ 3, 5, 1 }; NREC = 2;
